@@ -605,15 +605,15 @@ fn c11_dispatch_feed_http_after() {
     feed_case(&s, n, 5, 19, PROTO_HTTP)
 }
 
-//# harness: c11_dispatch_feed_rpc_sig
+//# harness: c11_dispatch_feed_rpc_cut4
 //# props: C11
 //# tier: thorough
 //# timeout: 1200
 //# encodes: proto::repl (dispatcher in TCP mode with a control block: identification state kept across segments, sticky protocol, which bytes the responder is handed)
 //# encodes: smack::Smack::search_next on the real PROTO tables
-//# bounds: 44-byte ONC-RPC call over TCP (record mark, XID arbitrary with non-zero first byte, program 100000, program version arbitrary, procedure 0) on a fresh flow, cut in two at positions 1, 4, 12, 27 (inside the 28-byte signature)
+//# bounds: 44-byte ONC-RPC call over TCP (record mark, XID arbitrary with non-zero first byte, program 100000, program version arbitrary, procedure 0) on a fresh flow, cut in two after byte 4 (inside the 28-byte signature)
 //# stubs: http::repl and rpc::repl_tcp -> recorders comparing every byte they are handed with the stream; other responders -> tags; proto_init -> constructor over the natively dumped real tables
-//# out: three and more segments (by induction from the parser-level cut lemmas); what the responders do with the bytes (c11_http_stream_cuts_*, c16_rpc_tcp_parse_cut*)
+//# out: three and more segments (by induction from the parser-level cut lemmas); what the responders do with the bytes (c16_rpc_tcp_parse_*)
 //# cover: all cuts examined
 #[kani::proof]
 #[kani::unwind(50)]
@@ -626,23 +626,46 @@ fn c11_dispatch_feed_http_after() {
 #[kani::stub(crate::proto::rpc::repl_udp, tag_rpc_udp)]
 #[kani::stub(crate::proto::smb::repl_smb1, tag_smb1)]
 #[kani::stub(crate::proto::smb::repl_smb2, tag_smb2)]
-fn c11_dispatch_feed_rpc_sig() {
+fn c11_dispatch_feed_rpc_cut4() {
     let (s, n) = rpc_stream();
-    feed_case(&s, n, 1, 2, PROTO_RPC_TCP);
-    feed_case(&s, n, 4, 5, PROTO_RPC_TCP);
-    feed_case(&s, n, 12, 13, PROTO_RPC_TCP);
+    feed_case(&s, n, 4, 5, PROTO_RPC_TCP)
+}
+
+//# harness: c11_dispatch_feed_rpc_cut27
+//# props: C11
+//# tier: thorough
+//# timeout: 1200
+//# encodes: proto::repl (dispatcher in TCP mode with a control block: identification state kept across segments, sticky protocol, which bytes the responder is handed)
+//# encodes: smack::Smack::search_next on the real PROTO tables
+//# bounds: 44-byte ONC-RPC call over TCP (record mark, XID arbitrary with non-zero first byte, program 100000, program version arbitrary, procedure 0) on a fresh flow, cut in two after byte 27 (inside the 28-byte signature)
+//# stubs: http::repl and rpc::repl_tcp -> recorders comparing every byte they are handed with the stream; other responders -> tags; proto_init -> constructor over the natively dumped real tables
+//# out: three and more segments (by induction from the parser-level cut lemmas); what the responders do with the bytes (c16_rpc_tcp_parse_*)
+//# cover: all cuts examined
+#[kani::proof]
+#[kani::unwind(50)]
+#[kani::stub(crate::proto::proto_init, crate::proto::verif_proto_init_stub)]
+#[kani::stub(crate::proto::http::repl, rec_http)]
+#[kani::stub(crate::proto::stun::repl, tag_stun)]
+#[kani::stub(crate::proto::ssh::repl, tag_ssh)]
+#[kani::stub(crate::proto::ghost::repl, tag_ghost)]
+#[kani::stub(crate::proto::rpc::repl_tcp, rec_rpc_tcp)]
+#[kani::stub(crate::proto::rpc::repl_udp, tag_rpc_udp)]
+#[kani::stub(crate::proto::smb::repl_smb1, tag_smb1)]
+#[kani::stub(crate::proto::smb::repl_smb2, tag_smb2)]
+fn c11_dispatch_feed_rpc_cut27() {
+    let (s, n) = rpc_stream();
     feed_case(&s, n, 27, 28, PROTO_RPC_TCP)
 }
 
-//# harness: c11_dispatch_feed_rpc_after
+//# harness: c11_dispatch_feed_rpc_cut28
 //# props: C11
 //# tier: thorough
 //# timeout: 1200
 //# encodes: proto::repl (dispatcher in TCP mode with a control block: identification state kept across segments, sticky protocol, which bytes the responder is handed)
 //# encodes: smack::Smack::search_next on the real PROTO tables
-//# bounds: 44-byte ONC-RPC call over TCP (as c11_dispatch_feed_rpc_sig) cut in two at positions 28, 29, 36, 43 (after the signature)
+//# bounds: 44-byte ONC-RPC call over TCP (record mark, XID arbitrary with non-zero first byte, program 100000, program version arbitrary, procedure 0) on a fresh flow, cut in two after byte 28 (right after the 28-byte signature)
 //# stubs: http::repl and rpc::repl_tcp -> recorders comparing every byte they are handed with the stream; other responders -> tags; proto_init -> constructor over the natively dumped real tables
-//# out: three and more segments (by induction from the parser-level cut lemmas); what the responders do with the bytes (c11_http_stream_cuts_*, c16_rpc_tcp_parse_cut*)
+//# out: three and more segments (by induction from the parser-level cut lemmas); what the responders do with the bytes (c16_rpc_tcp_parse_*)
 //# cover: all cuts examined
 #[kani::proof]
 #[kani::unwind(50)]
@@ -655,9 +678,33 @@ fn c11_dispatch_feed_rpc_sig() {
 #[kani::stub(crate::proto::rpc::repl_udp, tag_rpc_udp)]
 #[kani::stub(crate::proto::smb::repl_smb1, tag_smb1)]
 #[kani::stub(crate::proto::smb::repl_smb2, tag_smb2)]
-fn c11_dispatch_feed_rpc_after() {
+fn c11_dispatch_feed_rpc_cut28() {
     let (s, n) = rpc_stream();
-    feed_case(&s, n, 28, 30, PROTO_RPC_TCP);
-    feed_case(&s, n, 36, 37, PROTO_RPC_TCP);
+    feed_case(&s, n, 28, 29, PROTO_RPC_TCP)
+}
+
+//# harness: c11_dispatch_feed_rpc_cut43
+//# props: C11
+//# tier: thorough
+//# timeout: 1200
+//# encodes: proto::repl (dispatcher in TCP mode with a control block: identification state kept across segments, sticky protocol, which bytes the responder is handed)
+//# encodes: smack::Smack::search_next on the real PROTO tables
+//# bounds: 44-byte ONC-RPC call over TCP (record mark, XID arbitrary with non-zero first byte, program 100000, program version arbitrary, procedure 0) on a fresh flow, cut in two after byte 43 (after the 28-byte signature)
+//# stubs: http::repl and rpc::repl_tcp -> recorders comparing every byte they are handed with the stream; other responders -> tags; proto_init -> constructor over the natively dumped real tables
+//# out: three and more segments (by induction from the parser-level cut lemmas); what the responders do with the bytes (c16_rpc_tcp_parse_*)
+//# cover: all cuts examined
+#[kani::proof]
+#[kani::unwind(50)]
+#[kani::stub(crate::proto::proto_init, crate::proto::verif_proto_init_stub)]
+#[kani::stub(crate::proto::http::repl, rec_http)]
+#[kani::stub(crate::proto::stun::repl, tag_stun)]
+#[kani::stub(crate::proto::ssh::repl, tag_ssh)]
+#[kani::stub(crate::proto::ghost::repl, tag_ghost)]
+#[kani::stub(crate::proto::rpc::repl_tcp, rec_rpc_tcp)]
+#[kani::stub(crate::proto::rpc::repl_udp, tag_rpc_udp)]
+#[kani::stub(crate::proto::smb::repl_smb1, tag_smb1)]
+#[kani::stub(crate::proto::smb::repl_smb2, tag_smb2)]
+fn c11_dispatch_feed_rpc_cut43() {
+    let (s, n) = rpc_stream();
     feed_case(&s, n, 43, 44, PROTO_RPC_TCP)
 }
